@@ -1,4 +1,5 @@
 import Verif.Model.TreeDist
+import Verif.Model.Newick
 import Verif.Driver.Util
 namespace Verif.Driver
 open Verif.TreeDist
@@ -27,6 +28,17 @@ def elemIn (s : String) : Elem :=
 
 def setsOut (l : List (List Nat)) : String :=
   ";".intercalate (l.map fun s => ",".intercalate (s.map toString))
+
+partial def treeOut : Tree → String
+  | .leaf n => toString n
+  | .node cs => "( " ++ " ".intercalate (cs.map treeOut) ++ " )"
+
+def tokIn (s : String) : Verif.Newick.Tok :=
+  match s with
+  | "(" => .lpar | ")" => .rpar | "," => .comma | x => .name (nat! x)
+
+def tokOut : Verif.Newick.Tok → String
+  | .lpar => "(" | .rpar => ")" | .comma => "," | .name n => toString n
 
 def handleTree (fs : List (List String)) : Option String :=
   match fs with
@@ -57,6 +69,15 @@ def handleTree (fs : List (List String)) : Option String :=
        | some ((gn, gd), (rn, rd)) => some s!"D {gn} {gd} {rn} {rd}"
        | none => some "ZERO")
     | _, _ => some "bad-request"
+  | [["nwkparse"], toks] =>
+    let ts := toks.map tokIn
+    match Verif.Newick.parse (ts.length + 1) ts with
+    | some (t, []) => some ("N " ++ treeOut t)
+    | _ => some "ERR"
+  | [["nwkprint"], toks] =>
+    match parseTree toks with
+    | some (t, []) => some ("N " ++ " ".intercalate ((Verif.Newick.print t).map tokOut))
+    | _ => some "bad-request"
   | _ => none
 
 end Verif.Driver
